@@ -208,18 +208,23 @@ def make_case(spec):
     rnd = random.Random(spec['seed'])
     return geo.build(spec['cell'], spec['pattern'], spec['copies'], rnd, noise=spec.get('noise', 0.0), decoys=spec.get('decoys', 0),
                      mirror_decoys=spec.get('mirror', 0), near_miss=spec.get('near_miss', 0), atol=spec.get('atol', 0.05),
-                     straddle=spec.get('straddle', True), bent=spec.get('bent', 0), scramble=spec.get('scramble', False))
+                     straddle=spec.get('straddle', True), bent=spec.get('bent', 0), scramble=spec.get('scramble', False), unwrapped=spec.get('unwrapped', False))
 
 
 def check_case(spec):
     case = make_case(spec)
     case['verbose'] = bool(spec.get('verbose'))
     atol = spec.get('atol', 0.05)
+    before = (np.array(case['structure'].positions, dtype=float).copy(), list(case['structure'].elements), np.array(case['pattern'].positions, dtype=float).copy())
     try:
         idxs, poss, quats = search(case, spec)
     except Exception as e:
         return ["find_pattern_in_structure raised %r" % (e,)], 0
     msgs = []
+    if not spec.get('history'):
+        S_, P_ = case['structure'], case['pattern']
+        if not (np.array_equal(before[0], S_.positions) and before[1] == list(S_.elements) and np.array_equal(before[2], P_.positions)):
+            msgs.append("the search modified the structure or the pattern it was given")
     for j, idx in enumerate(idxs):
         msgs += match_problems(case['structure'], case['pattern'], idx, poss[j], quats[j], atol)
     return msgs, len(idxs)
@@ -331,6 +336,12 @@ def specs(tier, seed):
             if tier == 'quick' and (ci + pi) % 2 == 0:
                 continue
             out.append(dict(cell=cell, pattern=pat, copies=3, seed=seed * 1000 + 920 + ci, decoys=1, mirror=0, near_miss=0, rng=pi, history='destroy', on_copy=bool((ci + pi) % 3)))
+    # copies stored whole across the cell boundary (atoms outside the box)
+    for ci, cell in enumerate(cells):
+        for pi, pat in enumerate(('planar3', 'chiral4', 'long5' if False else 'sym5')):
+            if tier == 'quick' and (ci + pi) % 2:
+                continue
+            out.append(dict(cell=cell, pattern=pat, copies=3, seed=seed * 1000 + 980 + ci, decoys=2, mirror=1 if pat == 'chiral4' else 0, near_miss=1, rng=pi, unwrapped=True))
     # progress printing switched on
     for ci, cell in enumerate(cells[:3]):
         for pat in ('planar3', 'chiral4', 'sym5'):
